@@ -2084,7 +2084,10 @@ def halfspace_to_poincare(points):
     v = points[..., :-1]
     x2 = utils.normsq(v)
 
-    poincare_coords = np.zeros_like(points)
+    # integer half-space coordinates still give fractional Poincare
+    # coordinates
+    poincare_coords = utils.zeros(points.shape, like=points,
+                                  integer_type=False)
     denom = (x2 + (y + 1)*(y + 1))
     poincare_coords[..., 1:] = (-2 * v) / denom[..., np.newaxis]
     poincare_coords[..., 0] = (x2 + y * y - 1) / denom
